@@ -419,6 +419,25 @@ func zzH08_unpackpositional() {
 	zzReach("end")
 }
 
+// zzSameIface: x is the very value y (NaN-safe, tuple-safe identity).
+func zzSameIface(x, y Value) bool {
+	if x == nil || y == nil {
+		return false
+	}
+	switch y := y.(type) {
+	case Float:
+		xf, ok := x.(Float)
+		return ok && math.Float64bits(float64(xf)) == math.Float64bits(float64(y))
+	case Tuple:
+		xt, ok := x.(Tuple)
+		return ok && len(xt) == len(y) && (len(y) == 0 || &xt[0] == &y[0])
+	}
+	if _, ok := x.(Tuple); ok {
+		return false
+	}
+	return x == y
+}
+
 // H08.4: UnpackArg on one value: every supported variable type x every value
 // kind with symbolic payload (ints up to 66 bits). Accept iff the value has the
 // variable's type (ints: exactly representable); on success the variable holds
@@ -482,7 +501,7 @@ func zzH08_unpackarg() {
 	case 0:
 		var t Value
 		err = unpack(v, &t)
-		want, kept, got = true, t == nil, t == v
+		want, kept, got = true, t == nil, zzSameIface(t, v)
 	case 1:
 		t := zzSentStr
 		err = unpack(v, &t)
@@ -560,7 +579,7 @@ func zzH08_unpackarg() {
 	case 16:
 		var t Iterable
 		err = unpack(v, &t)
-		want, kept, got = vk >= 5 && vk <= 7, t == nil, t != nil && Value(t) == v
+		want, kept, got = vk >= 5 && vk <= 7, t == nil, t != nil && zzSameIface(t, v)
 	case 17:
 		var t Callable
 		err = unpack(v, &t)
